@@ -96,44 +96,38 @@ theorem pinned_counterexample : ¬ pinned_isolation_statement := by
 theorem pinned_counterexample_bg : ¬ IsolatedRun false exactGrow cexHeap cexParent true cexOps := by
   decide
 
-/-! ### PINNED — what was true of the old code -/
+/-! ### The general theorems (either variant of `assignVal`)
 
-/-- PINNED: the old code isolated the parent for every state, growth policy and operation sequence in
-    which no `name+=word` hits an indexed array whose element storage predates the subshell. -/
-theorem pinned_isolation_partial (g : Grows) (h : Heap) (p : Runner) (bg : Bool) (ops : List Op) (wf : WF p h)
-    (safe : SafeChild g h p bg ops) : IsolatedRun false g h p bg ops := by
-  unfold IsolatedRun childRun
-  unfold SafeChild at safe
-  cases hs : subshell g h p bg with
-  | none => trivial
-  | some c =>
-    rw [hs] at safe
-    simp only
-    cases hr : run false g c.1 c.2 ops with
-    | none => trivial
-    | some x => exact childRun_observe wf hs (Or.inr ⟨rfl, safe⟩) hr
+One invariant proof serves both variants: `fx = true` (the code as it is) needs no hypothesis,
+`fx = false` (the pinned old code) needs `SafeChild`.  `isolation`/`frame` and the `pinned_…`
+theorems below are one-line corollaries. -/
 
-/-! ### The property -/
-
-/-- Subshells cannot change the parent shell: for every well-formed parent state, every slice growth
-    policy, foreground and background subshells and every sequence of modelled operations run in
-    the child, the parent's observable state is unchanged. -/
-theorem isolation (g : Grows) (h : Heap) (p : Runner) (bg : Bool) (ops : List Op) (wf : WF p h) :
-    IsolatedRun true g h p bg ops := by
+/-- Isolation for either variant: the current one unconditionally, the pinned one under
+    `SafeChild`. -/
+theorem isolation_any (fx : Bool) (g : Grows) (h : Heap) (p : Runner) (bg : Bool) (ops : List Op) (wf : WF p h)
+    (safe : fx = true ∨ SafeChild g h p bg ops) : IsolatedRun fx g h p bg ops := by
   unfold IsolatedRun childRun
   cases hs : subshell g h p bg with
   | none => trivial
   | some c =>
     simp only
-    cases hr : run true g c.1 c.2 ops with
+    cases hr : run fx g c.1 c.2 ops with
     | none => trivial
-    | some x => exact childRun_observe wf hs (Or.inl rfl) hr
+    | some x =>
+      refine childRun_observe wf hs ?_ hr
+      rcases safe with hfx | hsafe
+      · exact Or.inl hfx
+      · cases fx with
+        | true => exact Or.inl rfl
+        | false =>
+          unfold SafeChild at hsafe
+          rw [hs] at hsafe
+          exact Or.inr ⟨rfl, hsafe⟩
 
-/-- The invariant behind it (also what C32 needs): the child never writes a heap object that
-    existed when the subshell was created — every old array, map and overlay is still there and
-    unchanged, whether or not the parent can reach it. -/
-theorem frame (g : Grows) (h : Heap) (p : Runner) (bg : Bool) (ops : List Op) (x : Heap × Runner)
-    (e : childRun true g h p bg ops = some x) :
+/-- The frame for either variant: no heap object that existed when the subshell was created is
+    ever written (arrays, maps, overlay values, function and alias maps). -/
+theorem frame_any (fx : Bool) (g : Grows) (h : Heap) (p : Runner) (bg : Bool) (ops : List Op) (x : Heap × Runner)
+    (safe : fx = true ∨ SafeChild g h p bg ops) (e : childRun fx g h p bg ops = some x) :
     (∀ i, i < h.strs.length → x.1.strs[i]? = h.strs[i]?) ∧
     (∀ i, i < h.ints.length → x.1.ints[i]? = h.ints[i]?) ∧
     (∀ i, i < h.maps.length → x.1.maps[i]? = h.maps[i]?) ∧
@@ -147,29 +141,59 @@ theorem frame (g : Grows) (h : Heap) (p : Runner) (bg : Bool) (ops : List Op) (x
     rw [hs] at e
     simp only at e
     have s := subshell_inv hs
-    have r := run_inv ops s.2 (Or.inl rfl) e
+    have safe' : fx = true ∨ (fx = false ∧ SafeRun h.sizes g c.1 c.2 ops) := by
+      rcases safe with hfx | hsafe
+      · exact Or.inl hfx
+      · cases fx with
+        | true => exact Or.inl rfl
+        | false =>
+          unfold SafeChild at hsafe
+          rw [hs] at hsafe
+          exact Or.inr ⟨rfl, hsafe⟩
+    have r := run_inv ops s.2 safe' e
     have fr := s.1.trans r.1
     exact ⟨fun i hi => fr.strs.getElem? hi, fun i hi => fr.ints.getElem? hi, fun i hi => fr.maps.getElem? hi,
       fun i hi => by rw [fr.scopes.getElem? hi], fun i hi => fr.fmaps.getElem? hi,
       fun i hi => fr.amaps.getElem? hi⟩
 
-/-- PINNED: the same frame for the old code under the hypothesis of `pinned_isolation_partial`. -/
+/-! ### The property -/
+
+/-- Subshells cannot change the parent shell: for every well-formed parent state, every slice growth
+    policy, foreground and background subshells and every sequence of modelled operations run in
+    the child, the parent's observable state is unchanged.  (Corollary of `isolation_any`.) -/
+theorem isolation (g : Grows) (h : Heap) (p : Runner) (bg : Bool) (ops : List Op) (wf : WF p h) :
+    IsolatedRun true g h p bg ops :=
+  isolation_any true g h p bg ops wf (Or.inl rfl)
+
+/-- The invariant behind it (also what C32 needs): the child never writes a heap object that
+    existed when the subshell was created — every old array, map and overlay is still there and
+    unchanged, whether or not the parent can reach it.  (Corollary of `frame_any`.) -/
+theorem frame (g : Grows) (h : Heap) (p : Runner) (bg : Bool) (ops : List Op) (x : Heap × Runner)
+    (e : childRun true g h p bg ops = some x) :
+    (∀ i, i < h.strs.length → x.1.strs[i]? = h.strs[i]?) ∧
+    (∀ i, i < h.ints.length → x.1.ints[i]? = h.ints[i]?) ∧
+    (∀ i, i < h.maps.length → x.1.maps[i]? = h.maps[i]?) ∧
+    (∀ i, i < h.scopes.length → (x.1.scopes[i]?).map (·.values) = (h.scopes[i]?).map (·.values)) ∧
+    (∀ i, i < h.fmaps.length → x.1.fmaps[i]? = h.fmaps[i]?) ∧
+    (∀ i, i < h.amaps.length → x.1.amaps[i]? = h.amaps[i]?) :=
+  frame_any true g h p bg ops x (Or.inl rfl) e
+
+/-! ### PINNED — the old code, as corollaries of the general theorems -/
+
+/-- PINNED: the old code isolated the parent whenever no `name+=word` hit an indexed array whose
+    element storage predates the subshell.  (Corollary of `isolation_any` with `fx = false`.) -/
+theorem pinned_isolation_partial (g : Grows) (h : Heap) (p : Runner) (bg : Bool) (ops : List Op) (wf : WF p h)
+    (safe : SafeChild g h p bg ops) : IsolatedRun false g h p bg ops :=
+  isolation_any false g h p bg ops wf (Or.inr safe)
+
+/-- PINNED: the same frame for the old code under that hypothesis.  (Corollary of `frame_any`.) -/
 theorem pinned_frame_partial (g : Grows) (h : Heap) (p : Runner) (bg : Bool) (ops : List Op) (x : Heap × Runner)
     (safe : SafeChild g h p bg ops) (e : childRun false g h p bg ops = some x) :
     (∀ i, i < h.strs.length → x.1.strs[i]? = h.strs[i]?) ∧
     (∀ i, i < h.ints.length → x.1.ints[i]? = h.ints[i]?) ∧
-    (∀ i, i < h.maps.length → x.1.maps[i]? = h.maps[i]?) := by
-  unfold childRun at e
-  unfold SafeChild at safe
-  cases hs : subshell g h p bg with
-  | none => rw [hs] at e; cases e
-  | some c =>
-    rw [hs] at e safe
-    simp only at e
-    have s := subshell_inv hs
-    have r := run_inv ops s.2 (Or.inr ⟨rfl, safe⟩) e
-    have fr := s.1.trans r.1
-    exact ⟨fun i hi => fr.strs.getElem? hi, fun i hi => fr.ints.getElem? hi, fun i hi => fr.maps.getElem? hi⟩
+    (∀ i, i < h.maps.length → x.1.maps[i]? = h.maps[i]?) :=
+  let f := frame_any false g h p bg ops x (Or.inr safe) e
+  ⟨f.1, f.2.1, f.2.2.1⟩
 
 /-! ### The vocabulary is complete (regenerated table) -/
 
@@ -227,5 +251,34 @@ example : SafeChild exactGrow cexHeap cexParent false
 
 /-- … and it is not trivially true: the counter-example violates it. -/
 example : ¬ SafeChild exactGrow cexHeap cexParent false cexOps := by decide
+
+/-! ### Non-vacuity for the assigning expansion `${a[1]:=w}` -/
+
+/-- Parent: `a=(x "" z)` in array 0, with one spare cell of capacity (len 3, cap 4). -/
+def paHeap : Heap :=
+  { strs := [[[120], [], [122], []]],
+    scopes := [{ parent := .nil,
+                 values := some [(cexName, { set := true, kind := .indexed,
+                                             list := { arr := 0, off := 0, len := 3, cap := 4 } })] }] }
+
+/-- `: "${a[1]:=w}"` -/
+def paOps : List Op := [.paramAssign cexName (some 1) true [119]]
+
+/-- What the example checks on the child's final state `x` (a Bool so that `decide` evaluates it):
+    the parent's array 0 — its whole heap of arrays — and every overlay's variables are what
+    they were, the parent's observation is unchanged, the child sees `a[1]=w`, the parent `a[1]=""`. -/
+def paCheck (bg : Bool) : Bool :=
+  match childRun true exactGrow paHeap cexParent bg paOps with
+  | some x =>
+    decide (x.1.strs.take 1 = paHeap.strs) &&
+    decide ((x.1.scopes.take 1).map (·.values) = paHeap.scopes.map (·.values)) &&
+    decide (observe cexParent x.1 = observe cexParent paHeap) &&
+    decide (varInd x.1 (lookupVar x.2 x.1 cexName) (some 1) = some ([119], true)) &&
+    decide (varInd paHeap (lookupVar cexParent paHeap cexName) (some 1) = some ([], true))
+  | none => false
+
+/-- A concrete parent/child pair for `paramAssign`: the parent is well-formed, the child runs
+    `${a[1]:=w}` to completion (foreground and background) and `paCheck` holds. -/
+example : WF cexParent paHeap ∧ paCheck false = true ∧ paCheck true = true := by decide
 
 end ShVerif.C27
